@@ -271,5 +271,5 @@ func (b *Bind) Body(out any) error {
 	}
 
 	// No suitable content type found
-	return ErrUnprocessableEntity
+	return b.returnErr(ErrUnprocessableEntity)
 }
